@@ -300,7 +300,7 @@ func partBudgets(c *kit.Ctx) {
 			b := jBudget{Nodes: "1", Schedule: &s, Duration: &d}
 			bases := baseTimes[:2]
 			if c.Thorough() {
-				bases = baseTimes
+				bases = baseTimes[:4]
 			}
 			for _, base := range bases {
 				for _, now := range instants(c.Rand, b, base) {
@@ -312,7 +312,7 @@ func partBudgets(c *kit.Ctx) {
 	// random budget lists
 	nRand := 400
 	if c.Thorough() {
-		nRand = 3000
+		nRand = 2000
 	}
 	for i := 0; i < nRand; i++ {
 		r := c.Rand.Fork()
